@@ -632,6 +632,9 @@ static void fam_docs(void)
 	                                "{\"abcdefghijklmnopqrstuvwxyz0123456789\":[\"abcdefghijklmnopqrstuvwxyz012345\\n\"]}",
 	                                "[123456789012345678901234567890123456.5e-3,-9223372036854775808]",
 	                                "/* a comment that is longer than thirty-two bytes, really */ 1 // and another one\n",
+	                                /* array growth (33rd element) and table growth (12th member) in the middle of a chunked parse */
+	                                "[0,1,2,3,4,5,6,7,8,9,0,1,2,3,4,5,6,7,8,9,0,1,2,3,4,5,6,7,8,9,0,1,2,3,4]",
+	                                "{\"a\":1,\"b\":2,\"c\":3,\"d\":4,\"e\":5,\"f\":6,\"g\":7,\"h\":8,\"i\":9,\"j\":0,\"k\":1,\"l\":2,\"a\":3}",
 	                                "\"\xe2\x82\xac\xe2\x82\xac\xe2\x82\xac\xe2\x82\xac\xe2\x82\xac\xe2\x82\xac\xe2\x82\xac\xe2\x82\xac\xe2\x82\xac\xe2\x82\xac\xe2\x82\xac\""};
 	for (unsigned i = 0; i < sizeof streams / sizeof streams[0]; i++)
 	{
